@@ -301,6 +301,8 @@ func childC12Census(args []string) {
 	var counts []string
 	alt := strings.HasSuffix(rname, "-alt") // history alternating coarse and fine renders (differently sized work per render)
 	rname = strings.TrimSuffix(rname, "-alt")
+	unclean := strings.HasSuffix(rname, "-paths") // history of renders to the same files through paths that are not in clean form
+	rname = strings.TrimSuffix(rname, "-paths")
 	procs := strings.HasSuffix(rname, "-procs") // history in which GOMAXPROCS is lowered and raised between renders
 	rname = strings.TrimSuffix(rname, "-procs")
 	base := size
@@ -322,7 +324,14 @@ func childC12Census(args []string) {
 				render.ToTriangles(c12Shape3(), c12Render3(rname, size))
 			}
 		} else {
-			c12Call(sink, rname, filepath.Join(dir, fmt.Sprintf("census-%s-%s-%d.%s", sink, rname, k%3, sink)), size)
+			name := fmt.Sprintf("census-%s-%s-%d.%s", sink, rname, k%3, sink)
+			path := filepath.Join(dir, name)
+			if unclean {
+				// the same few files again and again, spelled in ways filepath.Clean would change
+				os.MkdirAll(filepath.Join(dir, "sub"), 0o755)
+				path = []string{dir + "/./" + name, dir + "//" + name, dir + "/sub/../" + name, dir + "/" + name}[k%4]
+			}
+			c12Call(sink, rname, path, size)
 		}
 		counts = append(counts, strconv.Itoa(settle()))
 	}
@@ -512,7 +521,7 @@ func checkC12(c *Ctx) {
 		size    int
 	}
 	cens := []cen{{"mem", "uniform", 8}, {"mem", "octree", 8}, {"mem", "uniform-alt", 6}, {"stl", "uniform-alt", 5}, {"mem", "octree-alt", 6}, {"dxf", "uniform-alt", 10}, {"stl", "uniform", 8}, {"stl", "octree", 8}, {"stl", "scripted", 600},
-		{"mem", "uniform-procs", 6}, {"stl", "uniform-procs", 5}, {"3mf", "uniform", 6}, {"dxf", "uniform", 12}, {"dxf", "quadtree", 12}, {"svg", "uniform", 12}, {"svg", "quadtree", 12}}
+		{"mem", "uniform-procs", 6}, {"stl", "uniform-procs", 5}, {"stl", "uniform-paths", 5}, {"3mf", "octree-paths", 6}, {"dxf", "uniform-paths", 10}, {"svg", "quadtree-paths", 10}, {"3mf", "uniform", 6}, {"dxf", "uniform", 12}, {"dxf", "quadtree", 12}, {"svg", "uniform", 12}, {"svg", "quadtree", 12}}
 	census := map[string]string{}
 	parallelFor(len(cens), func(i int) {
 		e := cens[i]
